@@ -182,7 +182,12 @@ class FixedArray2D
             end = e;
             slicelength = sl;
         } else if (PyInt_Check(index)) {
-            size_t i = canonical_index(PyInt_AsSsize_t(index), length);
+            // an integer that does not fit Py_ssize_t is out of range
+            // for any array: IndexError, as for a Python sequence
+            Py_ssize_t pi = PyNumber_AsSsize_t(index, PyExc_IndexError);
+            if (pi == -1 && PyErr_Occurred())
+                boost::python::throw_error_already_set();
+            size_t i = canonical_index(pi, length);
             start = i; end = i+1; step = 1; slicelength = 1;
         } else {
             PyErr_SetString(PyExc_TypeError, "Object is not a slice");
